@@ -100,6 +100,7 @@ class _Instance:
             conn = AnonymousBundle(**conn)
         if not is_connectable(conn):
             raise TypeError(f"{self} attempting to connect non-connectable {conn}")
+        _assert_not_frozen(self)
 
         # The main event: actually stick `conn` in the `conns` dict
         if portname in self.conns:
@@ -117,6 +118,7 @@ class _Instance:
         Returns the formerly-connected `Connectable`.
         Raises a KeyError if the port is not connected."""
 
+        _assert_not_frozen(self)
         conn = self.conns.pop(portname)
         conn._connected_ports.remove(_get_connref(self, portname))
         return conn
@@ -131,6 +133,7 @@ class _Instance:
         but allows for in-place modification of the `conns` dict, e.g. while iterating over its items.
         """
 
+        _assert_not_frozen(self)
         connref = _get_connref(self, portname)
         # Get a reference to the old connection in the `conns` dict, without removing it
         old = self.conns[portname]
@@ -139,6 +142,15 @@ class _Instance:
         self.conns[portname] = conn
         conn._connected_ports.add(connref)
         return old
+
+
+def _assert_not_frozen(inst: "_Instance") -> None:
+    """Elaborated Modules are frozen: they are never elaborated or checked again,
+    so the connections of their Instances can no longer be changed either."""
+    parent = inst.__getattribute__("_parent_module")
+    if parent is not None and getattr(parent, "_elaborated", None) is not None:
+        msg = f"Cannot change the connections of {inst} in {parent} after elaboration."
+        raise RuntimeError(msg)
 
 
 def _mult(inst: "Instance", other: int) -> "InstanceArray":
